@@ -119,7 +119,12 @@ struct ctx_t {
 
     // canonical order = by sid, events of one sid in the order they happened
     void flush_events() {
-        std::stable_sort(pev.begin(), pev.end(), [](const auto &a, const auto &b) { return a.first < b.first; });
+        // (rejected follow-ups last: their place among the others depends on the order of resumptions in one pass)
+        auto bad = [](const std::string &t) { return t.size() > 4 && t.compare(t.size() - 4, 4, "=bad") == 0; };
+        std::stable_sort(pev.begin(), pev.end(), [&](const auto &a, const auto &b) {
+            if (a.first != b.first) return a.first < b.first;
+            return !bad(a.second) && bad(b.second);
+        });
         for (auto &e : pev) evs.push_back(e.second);
         pev.clear();
     }
